@@ -140,6 +140,12 @@ func runSchedules(r *core.Run) {
 		if res.Capped {
 			r.Cap(fmt.Sprintf("schedule cap hit in %s at preemption bound %d after %d schedules", res.Scenario, res.Bound, res.Schedules))
 		}
+		// a failing reader must be reported: in every scenario whose reader fails at least once there are
+		// schedules in which the consumer looks at its channels while the error is the only thing ready, so
+		// over ALL explored schedules the reader's error has to show up as an outcome at least once
+		if strings.Contains(res.Scenario, "reader=") && strings.Contains(res.Scenario, "E") && res.Outcomes["reader-error"] == 0 {
+			r.Violate("sched/reader-error-never-reported", fmt.Sprintf("in none of the %d explored schedules of %q did the call return the reader's error (outcomes: %v)", res.Schedules, res.Scenario, res.Outcomes), map[string]interface{}{"scenario": res.Scenario, "outcomes": res.Outcomes})
+		}
 		for k := range res.Outcomes {
 			r.Distinct("sched_outcomes", res.Scenario+"="+k)
 			r.Distinct("cases", "sched|"+res.Scenario+"|"+k)
